@@ -40,6 +40,12 @@ let do_check (seed : int) (txt : string) : string =
 let do_premises (txt : string) : string =
   if c04_premises_text (explode txt) then "PREMISES-OK" else "PREMISES-NO"
 
+(* c04core: the premises of C04_prints_admitted_core — parses, accepted, closed, core_src_b on the SOURCE
+   program (init_linear is then a theorem: DeterminismAccept.init_linear_parsed) *)
+let do_core (txt : string) : string =
+  if c04_core_text (explode txt) then "CORE-OK" else "CORE-NO"
+
 let () =
   register "c04premises" do_premises;
+  register "c04core" do_core;
   List.iter (fun seed -> register (Printf.sprintf "saxcheck-%d" seed) (do_check seed)) [0; 1; 2; 3]
